@@ -91,6 +91,7 @@ class Ctx:
                                                  ("DEADLOCK", "Deadlock", {"C05"}),
                                                  ("REFINE2", "Refine2", {"C08", "C09"}),
                                                  ("RACE", "Race", {"C04"}),
+                                                 ("RACE2", "Race2", {"C04"}),
                                                  ("DEADLOCK2", "Deadlock2", {"C05"}),
                                                  ("REFINE3", "Refine3", {"C10", "C11"}),
                                                  ("REFINE5", "Refine5", {"C17"}))
